@@ -162,9 +162,13 @@ def make_input(rng, kind, w, others, idx):
            [(rng.randrange(1, 10**6), gen.gen_script(rng)) for _ in range(rng.randrange(0, 2))]
     prev = gen.raw_tx(2, [(rbytes(rng, 32), rng.randrange(4), rbytes(rng, rng.randrange(0, 30)), 0xFFFFFFFF)], outs, 0)
     d.update(txid=dsha(prev)[::-1], vout=prev_vout)
-    if legacy_prev or rng.random() < 0.3:
+    # BIP174 allows a segwit v0 input to be described by the full previous transaction alone (no witness_utxo):
+    # the digest and the signature must be the BIP143 ones all the same. Taproot inputs always carry witness_utxo.
+    only_full_prev = (not legacy_prev) and spk[:1] == b"\x00" or (spk[:1] == b"\xa9" and not legacy_prev)
+    only_full_prev = bool(only_full_prev) and not d.get("kind", "").startswith("p2tr") and rng.random() < 0.2
+    if legacy_prev or only_full_prev or rng.random() < 0.3:
         pairs.append((b"\x00", prev))
-    if not legacy_prev:
+    if not legacy_prev and not only_full_prev:
         pairs.append((b"\x01", value.to_bytes(8, "little") + cs(len(spk)) + spk))
     d["pairs"] = pairs
     return d
